@@ -42,3 +42,8 @@ Proof. unfold word, wrap64, IntMin, IntMax.
 
 Lemma wrap64_eq_iff z : wrap64 z = z <-> word z.
 Proof. split; [intros <-; apply wrap64_word | apply wrap64_id]. Qed.
+
+(* sliceIndex: an integer object of any magnitude, clipped to the int range *)
+Definition clip64 (z : Z) : Z := Z.max IntMin (Z.min IntMax z).
+(* IndexInt on an integer object whose value fits an int *)
+Definition index_int (z : Z) : Z := z.
